@@ -46,3 +46,12 @@ CORPUS = [
 for m in CORPUS:
     if m.id == 'c20-inner-range':
         m.benign = True  # the corner store that follows overwrites the extra entry: behaviour unchanged
+CORPUS += [
+    Mut('c20-integrated-coalescent-sorted-with-the-first-sample', 'torchtree/evolution/coalescent.py', 'ConstantCoalescentIntegrated.log_prob', 'indices = torch.argsort(node_heights, descending=False)',
+        'indices = torch.argsort(node_heights.reshape(-1, node_heights.shape[-1])[0], descending=False)', expect=[('C20.O', 'ConstantCoalescentIntegrated.log_prob')],
+        more=[dict(scope='ConstantCoalescentIntegrated.log_prob', old='heights_sorted = torch.gather(node_heights, -1, indices)', new='heights_sorted = node_heights[..., indices]'),
+              dict(scope='ConstantCoalescentIntegrated.log_prob', old='node_mask_sorted = torch.gather(node_mask, -1, indices)', new='node_mask_sorted = node_mask[..., indices]')]),
+    Mut('c20-benign-integrated-coalescent-sort-returns-both', 'torchtree/evolution/coalescent.py', 'ConstantCoalescentIntegrated.log_prob', 'indices = torch.argsort(node_heights, descending=False)',
+        'heights_sorted, indices = torch.sort(node_heights, descending=False)', benign=True,
+        more=[dict(scope='ConstantCoalescentIntegrated.log_prob', old='heights_sorted = torch.gather(node_heights, -1, indices)', new='pass')]),
+]
